@@ -393,6 +393,31 @@ def run(prog, check):
     check.ob('C20.R2', '%s::template-sweep-loop' % gen_cls.key, ok_loop, '%s:%d' % (gen_cls.module.rel, tmpl.lineno),
              'the generated sweep iterates until CalcError <= Err_Tolerance and raises at the cap' if ok_loop else
              'the generated sweep loop lost its error test or its cap', 'a non-converging block')
+    # the measure compares the vector before the sweep with the vector after it: inside the loop the order is
+    #   new = Iterator(old);  err = CalcError(old, new);  old = new      (copying first makes the error identically zero)
+    if runstep:
+        for w in ast.walk(runstep[0]):
+            if not (isinstance(w, ast.While) and any(isinstance(c, ast.Call) and call_name(c) == 'CalcError' for c in ast.walk(w))):
+                continue
+            i_it = i_err = i_cp = None
+            new_nm = old_nm = None
+            for i_, st_ in enumerate(w.body):
+                if isinstance(st_, ast.Assign) and len(st_.targets) == 1 and isinstance(st_.targets[0], ast.Name):
+                    v_ = st_.value
+                    if isinstance(v_, ast.Call) and call_name(v_) == 'Iterator' and len(v_.args) == 1 and isinstance(v_.args[0], ast.Name) and i_it is None:
+                        i_it, new_nm, old_nm = i_, st_.targets[0].id, v_.args[0].id
+                    elif isinstance(v_, ast.Call) and call_name(v_) == 'CalcError' and i_err is None:
+                        i_err = i_
+                        err_args = [a_.id for a_ in v_.args if isinstance(a_, ast.Name)]
+                    elif isinstance(v_, ast.Name) and new_nm is not None and st_.targets[0].id == old_nm and v_.id == new_nm and i_cp is None:
+                        i_cp = i_
+            if i_it is None or i_err is None:
+                continue          # another shape of the loop: not judged here
+            ok_ord = i_it < i_err and (i_cp is None or i_err < i_cp) and set(err_args) == {old_nm, new_nm}
+            check.ob('C20.R2', '%s::template-error-compares-before-and-after' % gen_cls.key, ok_ord, '%s:%d' % (gen_cls.module.rel, tmpl.lineno),
+                     'the generated sweep measures the change between the vector before and after Iterator()' if ok_ord else
+                     'in the generated sweep the old vector is overwritten (or the wrong vectors are compared) before the error is taken: the error '
+                     'is zero after one sweep and unconverged values are stored', 'any simultaneous block: Y = C + G is violated at the stored values')
     # ---- R4: the generated sweep cannot report a period whose error measure is NaN (same rule as C02.R1) ------------
     from .C02 import tv, mentions
     if runstep:
@@ -422,6 +447,14 @@ def run(prog, check):
                 ('stop test `%s`: a NaN %s (overflowed iterates) ends the loop and the period is unpacked as solved' % (unparse(w.test), E))
         check.ob('C20.R4', '%s::template-NaN-safe-stop' % gen_cls.key, okn, '%s:%d' % (gen_cls.module.rel, tmpl.lineno), whyn,
                  'a block whose iterates overflow, e.g. x = 1000*x + 1: the in-process solver raises, the generated module returns inf')
+    # the generator and the in-process solver read the block through one parser: a run parameter that is also filed as a variable
+    # becomes an attribute of the generated class and collides with its settings (the class-exclusivity clauses of C14.R2)
+    if not getattr(check, '_borrowing', False):
+        from ..report import Borrowed
+        from . import C14 as _c14
+        b14 = Borrowed(check, lambda rule, key: rule == 'C14.R2' and ('one-class' in key or 'class-has-a-store' in key), 'C20.R1',
+                       'a block that states its Err_Tolerance or MaxTime: the generated module must still import and run')
+        _c14.run(prog, b14)
     check.floor('C20.R4', 1)
     # ---- R3 ----------------------------------------------------------------------------------------
     acc = discover_accessors(prog)
